@@ -173,7 +173,7 @@ Some(v) == <<v>>
 
 InitSt(nd) ==
     CASE nd.op \in {"fold", "fold_no_replay"} -> AccInit(nd.fn)
-      [] nd.op \in {"reduce", "reduce_no_replay"} -> NONE
+      [] nd.op \in {"reduce", "reduce_no_replay", "reduce_no_replay_pushbug"} -> NONE
       [] nd.op \in {"fold_keyed", "reduce_keyed"} -> <<>>
       [] nd.op \in {"join", "join_multiset", "cross_join", "cross_join_multiset", "zip"} -> <<<<>>, <<>>>>
       [] nd.op \in {"anti_join", "difference"} -> <<<<>>, {}>>       \* <<pos vector, neg set>>
@@ -193,7 +193,7 @@ IsTick(nd, i) == nd.pers[i] = "tick"
 \* state after `write_tick_end`: 'tick state is reset, 'static state kept
 TickEnd(nd, s) ==
     CASE nd.op \in {"fold", "fold_no_replay"} -> IF IsTick(nd, 1) THEN AccInit(nd.fn) ELSE s
-      [] nd.op \in {"reduce", "reduce_no_replay"} -> IF IsTick(nd, 1) THEN NONE ELSE s
+      [] nd.op \in {"reduce", "reduce_no_replay", "reduce_no_replay_pushbug"} -> IF IsTick(nd, 1) THEN NONE ELSE s
       [] nd.op \in {"fold_keyed", "reduce_keyed"} -> IF IsTick(nd, 1) THEN <<>> ELSE s
       [] nd.op \in {"join", "join_multiset", "cross_join", "cross_join_multiset", "zip"} ->
             <<IF IsTick(nd, 1) THEN <<>> ELSE s[1], IF IsTick(nd, 2) THEN <<>> ELSE s[2]>>
@@ -269,6 +269,15 @@ Step(nd, ins, s, tick, ext, cells) ==
             LET a == FoldL(LAMBDA acc, x : IF acc = NONE THEN Some(x) ELSE Some(RedStep(nd.fn, acc[1], x)),
                            s, ins[1])
             IN Res(<<IF ins[1] # <<>> \/ tick = 0 THEN a ELSE <<>>>>, a)
+      \* NOT the documented semantics: the behaviour of the known defect
+      \* dfirtick/reduce_no_replay/push-side-first-item (the first item of an empty accumulator does
+      \* not count as an update).  Never generated; only substituted by the driver to decide whether
+      \* a mismatch is fully explained by that known finding.
+      [] op = "reduce_no_replay_pushbug" ->
+            LET a == FoldL(LAMBDA acc, x : IF acc = NONE THEN Some(x) ELSE Some(RedStep(nd.fn, acc[1], x)),
+                           s, ins[1])
+                upd == Len(ins[1]) >= 2 \/ (Len(ins[1]) >= 1 /\ s # NONE)
+            IN Res(<<IF upd \/ tick = 0 THEN a ELSE <<>>>>, a)
       [] op \in {"fold_keyed", "reduce_keyed"} ->
             LET t == KeyedRun(op = "fold_keyed", nd.fn, s, ins[1]) IN Res(<<t>>, t)
       [] op \in {"join", "join_multiset"} ->
@@ -373,6 +382,7 @@ WriteDefers(P, vals, sts, l) ==
         THEN [sts[n] EXCEPT !.buf = vals[P.nodes[n].din[1]][P.nodes[n].din[2]]]
         ELSE sts[n]]
 
+EmptyAcc(P, l) == [n \in P.loops[l].first..P.loops[l].last |-> [p \in 1..3 |-> <<>>]]
 RECURSIVE RunRange(_, _, _, _, _, _, _, _, _)
 RECURSIVE RunLoop(_, _, _, _, _, _, _, _)
 
@@ -381,7 +391,7 @@ RunRange(P, a, b, ctx, it, vals, sts, tick, ext) ==
     IF a > b THEN <<vals, sts>>
     ELSE LET l == ChildLoopAt(P, a, ctx) IN
          IF l # 0
-         THEN LET r == RunLoop(P, l, 1, vals, sts, tick, ext, 0)
+         THEN LET r == RunLoop(P, l, 1, vals, sts, tick, ext, EmptyAcc(P, l))
               IN RunRange(P, P.loops[l].last + 1, b, ctx, it, r[1], r[2], tick, ext)
          ELSE LET nd == P.nodes[a]
                   \* an entry node sees its outside input only in the first iteration
@@ -405,11 +415,10 @@ MAXITER == 40
 
 \* exit nodes (all_iterations in the parent context) accumulate over the iterations: the
 \* values of the loop's own nodes that are read from outside are accumulated in `acc`
-\* (acc = 0 at the start, then a function node -> tuple of port sequences)
+\* (a function node -> tuple of port sequences, all empty at the start)
 AccumVals(P, l, acc, vals) ==
     [n \in P.loops[l].first..P.loops[l].last |->
-        IF acc = 0 THEN vals[n]
-        ELSE [p \in 1..Len(vals[n]) |-> (IF p <= Len(acc[n]) THEN acc[n][p] ELSE <<>>) \o vals[n][p]]]
+        [p \in 1..3 |-> acc[n][p] \o (IF p <= Len(vals[n]) THEN vals[n][p] ELSE <<>>)]]
 
 RunLoop(P, l, it, vals, sts, tick, ext, acc) ==
     LET L == P.loops[l]
@@ -417,7 +426,7 @@ RunLoop(P, l, it, vals, sts, tick, ext, acc) ==
                 ELSE EntryNonEmpty(P, l, vals, it) \/ BackNonEmpty(P, l, sts)
         emptyVals == [n \in 1..Len(P.nodes) |->
                         IF n >= L.first /\ n <= L.last
-                        THEN (IF acc = 0 THEN [p \in 1..3 |-> <<>>] ELSE acc[n])
+                        THEN acc[n]
                         ELSE vals[n]]
     IN IF ~fire \/ it > MAXITER THEN <<emptyVals, sts>>
        ELSE LET r == RunRange(P, L.first, L.last, l, it, vals, sts, tick, ext)
